@@ -380,3 +380,108 @@ func TestC04(t *testing.T) {
 		Gen:  gen, Run: run,
 	})
 }
+
+// ---------------------------------------------------------------- sibling derivations under a sanitizer
+
+type SibCase struct {
+	Cached   bool    `json:"cached"`
+	Shards   uint    `json:"shards"`
+	Sub      pbt.S   `json:"sub,omitempty"` // derive the siblings from this subscope instead of the root
+	Siblings []pbt.M `json:"siblings"`
+}
+
+func genSib(t *rapid.T) SibCase {
+	c := SibCase{Cached: rapid.Bool().Draw(t, "cached"), Shards: uint(rapid.SampledFrom([]int{1, 1, 1, 2, 16}).Draw(t, "shards"))}
+	if rapid.Bool().Draw(t, "sub") {
+		c.Sub = pbt.S(rapid.SampledFrom([]string{"s", "é", "s.t"}).Draw(t, "subname"))
+	}
+	val := rapid.Custom(func(t *rapid.T) pbt.S {
+		n := rapid.IntRange(1, 3).Draw(t, "len")
+		s := ""
+		for i := 0; i < n; i++ {
+			s += rapid.SampledFrom([]string{"é", "日", "_", "1", "a", "\xa9", "\xe6", "\x97", "\xa5", "."}).Draw(t, "ch")
+		}
+		return pbt.S(s)
+	})
+	n := rapid.IntRange(2, 8).Draw(t, "nsiblings")
+	for i := 0; i < n; i++ {
+		m := pbt.M{"k": val.Draw(t, "v")}
+		if rapid.IntRange(0, 3).Draw(t, "two") == 0 {
+			m[val.Draw(t, "k2")] = val.Draw(t, "v2")
+		}
+		c.Siblings = append(c.Siblings, m)
+	}
+	return c
+}
+
+func runSib(c SibCase) (pbt.Outcome, error) {
+	var errs pbt.Errs
+	var out pbt.Outcome
+	so := tally.SanitizeOptions{
+		NameCharacters:       tally.ValidCharacters{Ranges: tally.AlphanumericRange, Characters: tally.UnderscoreDashDotCharacters},
+		KeyCharacters:        tally.ValidCharacters{Ranges: tally.AlphanumericRange, Characters: tally.UnderscoreCharacters},
+		ValueCharacters:      tally.ValidCharacters{Ranges: tally.AlphanumericRange, Characters: tally.UnderscoreCharacters},
+		ReplacementCharacter: '_',
+	}
+	mo := &model.Opts{Repl: '_'}
+	alnum := [][2]rune{{'a', 'z'}, {'A', 'Z'}, {'0', '9'}}
+	mo.Name = model.San{Ranges: alnum, Chars: []rune{'.', '-', '_'}}
+	mo.Key = model.San{Ranges: alnum, Chars: []rune{'_'}}
+	mo.Value = model.San{Ranges: alnum, Chars: []rune{'_'}}
+	opts := tally.ScopeOptions{OmitCardinalityMetrics: true, SanitizeOptions: &so}
+	var log *rec.Log
+	if c.Cached {
+		r := rec.NewCached()
+		log = r.L
+		opts.CachedReporter = r
+	} else {
+		r := rec.NewStats()
+		log = r.L
+		opts.Reporter = r
+	}
+	root, _ := tally.VerifNewRootScope(opts, 0, c.Shards)
+	parent := root
+	mparent := model.NewRoot("", "", nil, mo)
+	if c.Sub != "" {
+		parent = root.SubScope(string(c.Sub))
+		mparent = mparent.Sub(string(c.Sub))
+	}
+	want := map[string]int64{}
+	changed := false
+	for i, tags := range c.Siblings {
+		// no two keys of one map may sanitize to the same key (winner unspecified)
+		std := dedupe(tags, mo).Std()
+		ms := mparent.Tagged(std)
+		d := int64(1) << uint(i)
+		parent.Tagged(std).Counter("c").Inc(d)
+		want[rec.ID(ms.Metric("c"), ms.Tags)] += d
+		for k, v := range std {
+			if mo.SanKey(k) != k || mo.SanValue(v) != v {
+				changed = true
+			}
+		}
+	}
+	tally.VerifReportOnce(root)
+	got := map[string]int64{}
+	for _, e := range log.Events() {
+		if e.Kind == rec.KCounter {
+			got[rec.ID(e.Name, e.Tags)] += e.I
+		}
+	}
+	if fmt.Sprint(got) != fmt.Sprint(want) {
+		errs.Addf("sibling scopes under a sanitizer: delivered %v, derivation says %v", got, want)
+	}
+	out.NonTrivial = changed && len(want) >= 2
+	if changed {
+		out.Classes = append(out.Classes, "sanitizer-changed-something")
+	}
+	return out, errs.Err()
+}
+
+func TestSiblings(t *testing.T) {
+	pbt.Main(t, pbt.Prop[SibCase]{
+		ID: "C04", Name: "siblings",
+		Rule: "rapid-generated sets of 2..8 sibling Tagged derivations from one parent (root or a subscope) of a root with an alphanumeric+'_' sanitizer, shard count 1/2/16, plain/cached: tag values of 1..3 pieces from {multi-byte runes, their trailing bytes as invalid UTF-8, '_', '1', 'a', '.'}, so that raw keys, sanitized keys and their byte-length differences overlap between siblings; each sibling increments its counter by a distinct power of two and, after a pass, the delivered total per (name, sanitized tags) must be exactly the sum over the siblings that the reference sanitizer maps to that identity. Non-trivial: the sanitizer changed some input and >=2 identities exist.",
+		Gen:  genSib, Run: runSib,
+	})
+}
